@@ -24,8 +24,10 @@ RULE = ("method cases: (container type, target expression, name from dir(type), 
         "from a fixed pool, template path, sync/async), enumerated completely; filter cases: "
         "(filter from env.filters, container input, positional container argument or keyword "
         "argument named after each parameter of the filter's signature with container/scalar "
-        "values, consumption form, sync/async), enumerated completely; thorough adds seeded "
-        "random compositions (two operations per template, chained filters, nested targets); a "
+        "values, consumption form, sync/async), enumerated completely (quick: a seed-rotated "
+        "quarter of the non-mutating argument tuples and one consumption form per row); thorough "
+        "adds seeded random compositions (2-3 method templates + 1 filter template rendered one "
+        "after the other against the same data object); a "
         "case is distinct by that tuple and non-trivial when the template compiled and the "
         "render got as far as evaluating the container expression (a render that ends in "
         "a template *syntax* error is not counted)")
@@ -33,7 +35,7 @@ LEVEL_TEXT = ("held (apart from recorded findings) on the complete enumerated ta
               "method names x argument pool x paths and filter x argument table; not a proof over all templates")
 ASSUMPTIONS = [
     "containers are of the exact builtin types list, dict, set, collections.deque; subclasses are not generated",
-    "equality is == between the rendered-with data and a copy.deepcopy taken before rendering (plus attribute dicts of plain holder objects)",
+    "equality is element-wise == (with exact type and deque maxlen) between the rendered-with data and a second, identical build of the data; once per shard that build is checked to equal copy.deepcopy of the first (plus attribute dicts of plain holder objects)",
     "a (method, arguments) pair counts as an attempted modification iff executing it on a deep copy changes the copy",
 ]
 NSHARDS = {"quick": 16, "thorough": 16}
